@@ -628,3 +628,48 @@ mod internal {
         }
     } // end trait impl
 } //end internals module
+
+// ---------------------------------------------------------------------------
+// verification hooks (add-only, feature gated): call-through wrappers for the
+// private helpers of the main loop.
+#[cfg(feature = "verif-hooks")]
+pub mod verif_hooks_solver {
+    use super::internal::IPSolverInternals;
+    use super::super::traits::*;
+    use super::*;
+
+    /// `centering_parameter(α)` of the given solver
+    pub fn centering_parameter<T, D, V, R, K, C, I, SO, SE>(
+        solver: &Solver<D, V, R, K, C, I, SO, SE>,
+        α: T,
+    ) -> T
+    where
+        T: FloatT,
+        D: ProblemData<T, V = V>,
+        V: Variables<T, D = D, R = R, C = C, SE = SE>,
+        R: Residuals<T, D = D, V = V>,
+        K: KKTSystem<T, D = D, V = V, C = C, SE = SE>,
+        C: Cone<T>,
+        I: Info<T, D = D, V = V, R = R, C = C, SE = SE>,
+        SO: Solution<T, D = D, V = V, I = I>,
+        SE: Settings<T>,
+    {
+        solver.centering_parameter(α)
+    }
+
+    /// `default_start()` of the given solver (initial point only, no iteration)
+    pub fn default_start<T, D, V, R, K, C, I, SO, SE>(solver: &mut Solver<D, V, R, K, C, I, SO, SE>)
+    where
+        T: FloatT,
+        D: ProblemData<T, V = V>,
+        V: Variables<T, D = D, R = R, C = C, SE = SE>,
+        R: Residuals<T, D = D, V = V>,
+        K: KKTSystem<T, D = D, V = V, C = C, SE = SE>,
+        C: Cone<T>,
+        I: Info<T, D = D, V = V, R = R, C = C, SE = SE>,
+        SO: Solution<T, D = D, V = V, I = I>,
+        SE: Settings<T>,
+    {
+        solver.default_start()
+    }
+}
